@@ -181,6 +181,20 @@ def expand(fn, e, depth=3, keep=()):
             ds = defs.get(x["decl"], [])
             if len(ds) == 1:
                 return go(ds[0], d - 1)
+        if x.get("k") == "call" and (x.get("callee") or {}).get("nm") == "operator()" and "obj" in x and not x.get("args") and d > 0:
+            # call of a parameterless local lambda whose body is a single return: inline the returned expression
+            o = strip_all_casts(x["obj"])
+            if o.get("k") == "ref" and o.get("dk") == "local":
+                ds = defs.get(o["decl"], [])
+                if len(ds) == 1:
+                    lam = strip_all_casts(ds[0])
+                    while lam.get("k") == "construct" and len(lam.get("args", [])) == 1:
+                        lam = strip_all_casts(lam["args"][0])
+                    if lam.get("k") == "lambda" and not lam.get("params"):
+                        body = lam.get("body") or {}
+                        stmts = body.get("body", []) if body.get("k") == "compound" else [body]
+                        if len(stmts) == 1 and stmts[0].get("k") == "return" and isinstance(stmts[0].get("e"), dict):
+                            return go(stmts[0]["e"], d - 1)
         if "k" not in x:
             return x
         out = {}
